@@ -9,6 +9,7 @@
 package verifrt
 
 import (
+	"bytes"
 	"encoding/json"
 	"fmt"
 	"os"
@@ -17,6 +18,8 @@ import (
 	"strings"
 	"sync"
 	"time"
+
+	"github.com/BurntSushi/toml"
 )
 
 // Input is one recorded input value (creation order).
@@ -122,6 +125,33 @@ func String(name string, n int) string { return string(Bytes(name, n)) }
 // the real decoder reads the text returned by Document).
 func Arbitrary(ptr any, doc, format string) {
 	panic("verifrt.Arbitrary is only meaningful under the symbolic executor")
+}
+
+// EncodeTree renders a document given as a tree of map[string]any / []any / string / int / bool /
+// nil values as text of the format ("json", "toml"). Under the symbolic executor the tree is kept
+// for DecodeTree and a placeholder is returned.
+func EncodeTree(doc string, tree any, format string) []byte {
+	switch format {
+	case "json":
+		b, err := json.Marshal(tree)
+		if err != nil {
+			panic(err)
+		}
+		return b
+	case "toml":
+		var buf bytes.Buffer
+		if err := toml.NewEncoder(&buf).Encode(tree); err != nil {
+			panic(err)
+		}
+		return buf.Bytes()
+	}
+	panic("verifrt.EncodeTree: unknown format " + format)
+}
+
+// DecodeTree assigns the tree registered by EncodeTree to *ptr the way the format's decoder
+// would (symbolic executor only: called from decoder stubs).
+func DecodeTree(ptr any, doc string) {
+	panic("verifrt.DecodeTree is only meaningful under the symbolic executor")
 }
 
 // Document returns the text of a document built by Arbitrary (natively: rendered from the
